@@ -146,6 +146,47 @@ def run(case, ctx):
                     ctx.viol("loaded_value_differs", dict(det, subject=s, group=g, metric=k, got=got, expected=want, raw=recorded[s][g].get(k)),
                              features=dict(feats, expected_missing=want is None, raw=repr(recorded[s][g].get(k))[:12]))
                     return
+    # the same file continued by an evaluator that declares the same groups in another order: either refused,
+    # or every value still comes back under its own group
+    if ng >= 2 and i % 3 == 0:
+        cfg2 = dict(cfg, groups=dict(reversed(list(gdef.items()))))
+        ev2 = pan.make_evaluator(cfg2)
+        real2 = ev2.evaluate
+        rec2 = {}
+
+        def spy2(*a, **k):
+            out = real2(*a, **k)
+            rec2["extra subject"] = {g: v[0].to_dict() for g, v in out.items()}
+            return out
+
+        ev2.evaluate = spy2
+        try:
+            with pan.quiet(), np.errstate(all="ignore"):
+                agg2 = Panoptica_Aggregator(ev2, path)
+        except Exception:  # noqa: BLE001
+            ctx.count("C18.reordered_groups_refused")
+            agg2 = None
+        if agg2 is not None:
+            pred, refa, _ = gen.random_pair(ctx.seed, 79000 + i, ndim=1, dtype=np.uint8, max_inst=4, family="shift")
+            pred = np.where(pred > 0, (pred - 1) % (2 * ng) + 1, 0).astype(np.uint8)
+            refa = np.where(refa > 0, (refa - 1) % (2 * ng) + 1, 0).astype(np.uint8)
+            try:
+                with pan.quiet(), np.errstate(all="ignore"):
+                    agg2.evaluate(pred, refa, "extra subject")
+                    st2 = Panoptica_Statistic.from_file(path)
+                    one = st2.get_one_subject("extra subject")
+            except Exception as e:  # noqa: BLE001
+                ctx.viol("continuing_with_reordered_groups_failed_late", dict(det, exc=repr(e)[:300]), features=dict(feats, reordered=True))
+                return
+            ctx.count("C18.reordered_groups_accepted")
+            for g in rec2.get("extra subject", {}):
+                for k in keys:
+                    want = pan.pyval(rec2["extra subject"][g].get(k))
+                    want = None if want is None or (isinstance(want, float) and not math.isfinite(want)) else float(want)
+                    got = one.get(g, {}).get(k, "absent")
+                    if not ((got is None and want is None) or (got is not None and want is not None and got == want)):
+                        ctx.viol("value_filed_under_wrong_group_after_reordering", dict(det, group=g, metric=k, got=got, expected=want), features=dict(feats, reordered=True))
+                        return
     ctx.count("f:C18.missing_values", n_missing)
     if n_missing and n_finite:
         ctx.nontrivial(repr(cfg), subjects, i)
